@@ -16,6 +16,9 @@ def _label(kind, i):
         return (i // 3, i % 3, "x")
     if kind == "neg":
         return -i * 7 - 1
+    if kind == "odd":        # falsy and mutually unorderable labels (None is left out: goal=None means "explore everything" in bfs/dfs)
+        odd = ["", 0, (), 1.5, frozenset(), b"", ("t",), -1, "x", 7, (0, 0), 2.5]
+        return odd[i] if i < len(odd) else ("odd", i)
     return i
 
 
@@ -201,7 +204,7 @@ def gen_graph(rng, nmax=9, small=False):
         if rng.random() < 0.5:
             q.append(rng.randint(0, 12))
         qs.append(q)
-    return {"n": n, "edges": edges, "wscale": scale, "labels": rng.choice(["int", "str", "tuple", "neg"]), "queries": qs}
+    return {"n": n, "edges": edges, "wscale": scale, "labels": rng.choice(["int", "str", "tuple", "neg", "odd"]), "queries": qs}
 
 
 def gen_grid(rng, rmax=7, cmax=7):
